@@ -199,6 +199,7 @@ func (eng *Engine) load() error {
 				continue
 			}
 			if c.Extern {
+				c.ScopePkg = sp.Pkg.Path()
 				eng.registerExtern(c)
 				continue
 			}
@@ -405,7 +406,7 @@ func (eng *Engine) newTop(fn *ssa.Function, c *Contract) *fnCtx {
 	fc := &fnCtx{eng: eng, fn: fn, contract: c, defs: newDefs(),
 		kindCtr: map[string]int{}, heapInit: map[string]string{}, heapSorts: map[string]string{}, strLits: map[string]string{},
 		params: map[string]Val{}, externsUsed: map[string]bool{}, inlinedFns: map[string]bool{}, calleeUsed: map[string]bool{},
-		callOrd: map[string]int{}, storeOrd: map[*ssa.Alloc]int{}, framedBases: map[string]bool{}, boundCalls: map[int]bool{}, boundAfters: map[int]bool{}}
+		callOrd: map[string]int{}, storeOrd: map[*ssa.Alloc]int{}, framedBases: map[string]bool{}, boundCalls: map[int]bool{}, boundAfters: map[int]bool{}, heapElemTy: map[string]types.Type{}}
 	fc.top = fc
 	return fc
 }
@@ -428,6 +429,7 @@ func (eng *Engine) verifyFunction(tg target) *funcResult {
 	}()
 	st := &State{pc: "true", heapBase: "0", cells: map[*ssa.Alloc]string{}, globs: map[*ssa.Global]string{}, heap: map[string]string{}}
 	st.alloc = fc.defs.Declare("alloc0", "Int")
+	fc.alloc0 = st.alloc
 	fc.assume(st, "(>= "+st.alloc+" 1)")
 	var args []Val
 	var inputs []modelInput
@@ -456,6 +458,14 @@ func (eng *Engine) verifyFunction(tg target) *funcResult {
 	}
 	fc.entry = st.clone()
 	fc.obligeSat(st, "vacuity-pre", "preconditions and type invariants are satisfiable")
+	for _, d := range c.Decr {
+		v, err := envPre.eval(d.Expr)
+		if err != nil {
+			fc.specError(d, err)
+			continue
+		}
+		fc.recMeasures = append(fc.recMeasures, fc.defs.Define("rec.measure", "Int", envPre.coerce(v, types.Typ[types.Int]).T))
+	}
 	fc.execBody(st, args)
 	// exits
 	var edges []inEdge
